@@ -3,16 +3,18 @@ import SgVerif.C29.LemmasBcast
 import SgVerif.C29.LemmasPair
 import SgVerif.C29.LemmasReduce
 import SgVerif.C29.LemmasSpec
+import SgVerif.C29.LemmasLr
 /-
 C29 — Every collective algorithm computes the MPI result.  Property theorems.
 
 (A) theorems on the SPEC (Model.lean §Spec), for every communicator size, count, buffers, and every operator that is
     associative (+ commutative where stated);
 (B) schedule theorems: the round-based models of allreduce-rdb (incl. its non-power-of-two pre/post phase),
-    allgather-ring, bcast binomial_tree (= the default bcast), alltoall pair, reduce flat_tree and reduce binomial
+    allgather-ring, bcast binomial_tree (= the default bcast), alltoall pair, reduce flat_tree, reduce binomial and
+    allreduce lr (ring reduce-scatter + ring allgather; counts that are a positive multiple of the size)
     compute the spec's result for EVERY communicator size, root and rank (`allreduce_rdb_eq_spec`,
     `allgather_ring_eq_spec`, `bcast_binomial_eq_spec`, `alltoall_pair_eq_spec`, `reduce_flat_tree_eq_spec`,
-    `reduce_binomial_eq_spec`).  The other selectable algorithms are not modelled: they are tied to the spec by the
+    `reduce_binomial_eq_spec`, `allreduce_lr_eq_spec`).  The other selectable algorithms are not modelled: they are tied to the spec by the
     correspondence only.
 -/
 namespace SgVerif.C29
@@ -526,6 +528,37 @@ theorem reduce_binomial_eq_spec (op : α → α → α) (hA : ∀ a b c, op (op 
 /-- non-vacuity: 6 ranks (not a power of two), root 4, both branches -/
 example : reduceBinomial (zipOp (· + ·)) true (fun r => [(r : Int), 1]) 6 4 = [15, 6] := by decide
 example : reduceBinomial (zipOp (· ++ ·)) false (fun r => [[r]]) 6 4 = [[0, 1, 2, 3, 4, 5]] := by decide
+
+/-- **logical-ring allreduce (allreduce-lr.cpp: ring reduce-scatter + ring allgather) = the spec, for every
+communicator size and rank**, when the count is a positive multiple of the size (otherwise the code calls other
+algorithms: redbcast for `rcount < size`, the selector's allreduce on the remainder — not modelled).  `x r b` = block `b`
+(of `c` cells) of the send buffer of rank `r`.  The ring accumulates every block in the order `r, r-1, …` (cyclically):
+commutativity is needed, as the source says ("assume commutative and associative reduce operator"). -/
+theorem allreduce_lr_eq_spec (op : α → α → α) (hA : ∀ a b c, op (op a b) c = op a (op b c)) (hC : ∀ a b, op a b = op b a)
+    (x : Nat → Nat → List α) (np c : Nat) (hnp : 1 ≤ np) (hlen : ∀ r b, r < np → b < np → (x r b).length = c)
+    (rank : Nat) (hr : rank < np) :
+    (allSome ((List.range np).map (allreduceLr (zipOp op) x np rank))).map List.flatten
+      = reduceAll op ((List.range np).map fun r => ((List.range np).map (x r)).flatten) := by
+  obtain ⟨n, rfl⟩ : ∃ n, np = n + 1 := ⟨np - 1, by omega⟩
+  have hl : (List.range (n + 1)).map (allreduceLr (zipOp op) x (n + 1) rank)
+      = ((List.range (n + 1)).map fun b => lrTotal (zipOp op) x (n + 1) b).map some := by
+    rw [List.map_map]
+    apply List.map_congr_left
+    intro b hb
+    exact allreduceLr_get (zipOp op) x (n + 1) hnp rank b hr (List.mem_range.mp hb)
+  rw [hl, allSome_map_some, Option.map_some, reduceAll_range]
+  obtain ⟨h1, _⟩ := segFold_blocks op (n + 1) c x n (fun r b hr' hb => hlen r b (by omega) hb)
+  rw [h1]
+  congr 2
+  apply List.map_congr_left
+  intro b hb
+  have h2 := lrTotal_eq_reduceAll op hA hC x n b (List.mem_range.mp hb)
+  rw [reduceAll_range] at h2
+  exact Option.some.inj h2
+
+/-- non-vacuity: 3 ranks, 3 blocks of 2 cells -/
+example : (allSome ((List.range 3).map (allreduceLr (zipOp (· + ·)) (fun r b => [(10 * r + b : Int), 1]) 3 1))).map List.flatten
+    = some [30, 3, 33, 3, 36, 3] := by decide
 
 /-- non-vacuity: 5 ranks -/
 example : allgatherRing [[1], [2], [3], [4], [5]] 3 = [some [1], some [2], some [3], some [4], some [5]] := by decide
